@@ -17,7 +17,7 @@ Local Open Scope Z_scope.
 Definition is_work (m : mop) : bool :=
   match m with
   | MActs _ | MPopFrame | MEndBody _ _ | MRunItem _ | MDropItem _ | MDropInner _ | MDropVal _
-  | MDropOwn _ _ | MDropRef _ | MRetInvoke _ _ | MEmit _ | MTerminate _ _ | MLogClose _ _ | MToReady _ => true
+  | MDropOwn _ _ | MDropRef _ | MRetInvoke _ _ | MValDrop _ | MDelDone | MTerminate _ _ | MLogClose _ _ | MToReady _ => true
   | _ => false
   end.
 
@@ -215,6 +215,7 @@ Proof.
   - apply drop_own_quiet in H as [A B]. split; auto. rewrite B; discriminate.
   - apply drop_ref_quiet in H as [A B]. split; auto. rewrite B; discriminate.
   - apply ret_invoke_quiet in H as [A B]. split; auto. rewrite B; discriminate.
+  - inversion H; subst. split; [reflexivity | discriminate].
   - inversion H; subst. split; [reflexivity | discriminate].
   - apply terminate_quiet in H as [A B]. split; auto. rewrite B; discriminate.
   - destruct (aget (actors s) a); inversion H; subst; split; try reflexivity; discriminate.
